@@ -131,6 +131,11 @@ def build(node, env=None, path='r'):
         keys, vals = progs.src_values(node)
         if env.raw_sources:
             return done(lazy_dataset.core.DictDataset(LoggingDict(zip(keys, vals), env.log, path)))
+        if node.get('as_defaultdict'):
+            import collections
+            dd = collections.defaultdict(dict)  # the caller's mapping type is the caller's business
+            dd.update(zip(keys, vals))
+            return done(lazy_dataset.new(dd, immutable_warranty=node['mode']))
         return done(lazy_dataset.new(dict(zip(keys, vals)), immutable_warranty=node['mode']))
 
     if op in progs.NARY:
@@ -255,7 +260,12 @@ def build(node, env=None, path='r'):
             return done(ds.shard(node['k'], node['i'] - node['k']))  # shard(k, i) == split(k)[i], also for i < 0
         return done(ds.shard(node['k'], node['i']))
     if op == 'batch':
-        return done(ds.batch(node['n'], drop_last=node['drop_last']))
+        dl = node['drop_last']
+        if node.get('dl_as') == 'np':
+            dl = np.bool_(dl)  # the flag as a numpy bool (from a comparison) or an int
+        elif node.get('dl_as') == 'int':
+            dl = int(dl)
+        return done(ds.batch(node['n'], drop_last=dl))
     if op == 'unbatch':
         return done(ds.unbatch())
     if op == 'items':
